@@ -241,6 +241,16 @@ namespace occa {
             state.pushOperator(&opToken);
           }
           else if (opToken.opType() & operatorType::pairEnd) {
+            if (state.scopedStates.size() < 2) {
+              // No pair was opened, there is no scope to pop
+              state.hasError = true;
+              opToken.printError(
+                std::string("Could not find an opening '")
+                + ((pairOperator_t*) opToken.op)->pairStr
+                + '\''
+              );
+              return;
+            }
             state.pushOperator(&opToken);
             state.popPair();
             closePair();
